@@ -9,6 +9,8 @@ VERIF_DIR="${VERIF_DIR:-$HERE}"
 cd "$HERE/miri" || exit 2
 export CARGO_NET_OFFLINE=true
 export CARGO_TARGET_DIR="$HERE/miri/target"
+# the simulator's cfg flags (custom getrandom backend, hooks) must not leak into the Miri build
+unset RUSTFLAGS
 case "$ID" in
   C17) SCEN="local4:32 local2:32 wrap4:24 public4:6" ;;
   C04) SCEN="parse:24 local4:8" ;;
@@ -24,7 +26,10 @@ for s in $SCEN; do
   code=$?
   oks=$(grep -c "^ok $name" "$LOG")
   if [ $code != 0 ] || [ "$oks" != "$n" ]; then
-    if grep -qE "error: Undefined Behavior|Data race|error: unsupported operation|panicked|memory leaked|error: abnormal" "$LOG"; then
+    if grep -qE "error: unsupported operation" "$LOG"; then
+      echo "harness error: miri cannot execute scenario $name (unsupported operation); see $LOG" >&2; grep -E "unsupported operation" "$LOG" | head -2 >&2; exit 2
+    fi
+    if grep -qE "error: Undefined Behavior|Data race|panicked|memory leaked|error: abnormal" "$LOG"; then
       seed=$(grep -oE "FAILING SEED: [0-9]+" "$LOG" | head -1 | grep -oE "[0-9]+$")
       R="$VERIF_DIR/replays/$ID-miri-$name-seed${seed:-x}.json"
       printf '{"property":"%s","engine":"miri","scenario":"%s","miri_seed":"%s","cmd":"cd /verif/miri && MIRIFLAGS=\\"-Zmiri-seed=%s -Zmiri-preemption-rate=0.1\\" cargo +nightly miri run --offline -- %s","log_tail":%s}\n' "$ID" "$name" "${seed:-?}" "${seed:-0}" "$name" "$(tail -25 "$LOG" | python3 -c 'import json,sys; print(json.dumps(sys.stdin.read()))')" > "$R"
